@@ -679,6 +679,14 @@ func (env *Env) execBlock(list []ast.Stmt) ([]*Val, bool) {
 				}
 				if ix, ok := ast.Unparen(x.Rhs[0]).(*ast.IndexExpr); ok && len(x.Rhs) == 1 && len(x.Lhs) == 2 && env.MapOk != nil {
 					if v, present, handled := env.MapOk(env, ix); handled {
+						if v == nil && !present {
+							// a missing key yields the zero value of the element type
+							if tv, ok := info.Types[ix.X]; ok {
+								if mt, isMap := tv.Type.Underlying().(*types.Map); isMap {
+									v = zeroVal(mt.Elem())
+								}
+							}
+						}
 						if v == nil {
 							v = &Val{Tag: "map-element"}
 						}
